@@ -856,7 +856,8 @@ class Name:
         """
 
         if self.is_subdomain(origin):
-            return Name(self[: -len(origin)])
+            # (not self[: -len(origin)], which is empty for the empty origin)
+            return Name(self[: len(self) - len(origin)])
         else:
             return self
 
